@@ -1,6 +1,7 @@
 pub mod adhoc;
 pub mod c01;
 pub mod c03;
+pub mod c04;
 
 use crate::ctx::Ctx;
 
@@ -8,6 +9,7 @@ pub fn run(ctx: &mut Ctx) -> bool {
     match ctx.prop.as_str() {
         "C01" => c01::run(ctx),
         "C03" => c03::run(ctx),
+        "C04" => c04::run(ctx),
         _ => return false,
     }
     true
